@@ -187,7 +187,15 @@ theorem step_places (cron : String → Int → Int) (r : R) (op : Op) (hinv : In
   | reject k now =>
     simp only [StepOk] at hok
     have hz := held_elsewhere_zero r k.short (hinv _) hok
-    simp only [step, reject, rejectTx, Op.short, Op.after]
+    simp only [step, reject, Op.short, Op.after]
+    split
+    case h_2 =>
+      -- no data or no take marker: nothing changes, the message stays where it is (held)
+      by_cases hs : sh = k.short
+      · subst hs; simp only [if_true, places]; omega
+      · simp only [hs, if_false]
+    rename_i p0 m0 hp0 hm0
+    simp only [rejectTx]
     split
     · have hu := unmark_places (markDead r k) k sh
       have hm := markDead_places r k sh
@@ -198,9 +206,9 @@ theorem step_places (cron : String → Int → Int) (r : R) (op : Op) (hinv : In
         omega
       · simp only [hs, if_false]
         omega
-    · have hp := put_places r k (waitScore ((getHash r (k.prio, k.short)).params.getD {}) now cron) true sh
+    · have hp := put_places r k (waitScore p0 now cron) true sh
         (fun hs => by subst hs; exact hz.2.1)
-      have hu := unmark_places (put r k (waitScore ((getHash r (k.prio, k.short)).params.getD {}) now cron) true) k sh
+      have hu := unmark_places (put r k (waitScore p0 now cron) true) k sh
       simp only [places, hu.1, hu.2.1, hu.2.2.1, hu.2.2.2]
       rw [hp.2.1]
       by_cases hs : sh = k.short
